@@ -172,6 +172,19 @@ def gen_case(rng, idx):
                 reuse=[rng.choice(REUSE_CFGS) for _ in range(3)])
 
 
+def gen_stress(rng, idx):
+    """Unit-demand rings of vertices with net weights spanning 1e-3 .. 1e6 and very low efforts, for the Python
+    annealing kernel only (rare numeric events in the acceptance test / temperature schedule)."""
+    n = rng.choice([4, 6, 8, 10, 12])
+    w, h = rng.choice([(3, 3), (4, 4), (4, 2), (5, 3)])
+    cap = rng.choice([1, 1, 2])
+    return dict(machine=dict(w=w, h=h, res=[[0, cap]], exc=[], dead=[], dead_links=[]),
+                vres=[[v, [[0, 1]]] for v in range(n)],
+                nets=[[v, [(v + 1) % n], 10 ** rng.uniform(-3, 6) if rng.random() < 0.3 else 1.0] for v in range(n)],
+                constraints=[], vorder=None, corder=None, effort=rng.choice([0.001, 0.01, 0.05, 1]),
+                seed=rng.randrange(1 << 30), mode="stress", idx=200000 + idx, sa_steps=0)
+
+
 def enumerate_small():
     """Thorough tier: every problem of a small finite family -- a 2x1 machine (second chip possibly dead),
     one resource with capacities in {0,1,2} per chip (the second given as a resource exception), up to 3
@@ -360,6 +373,13 @@ def oracle(chk, c, r):
         if (cfg == "seq_custom" and not ov) or o[0] == "skipped":
             continue
         replay = dict(case=c, config=cfg, observed=o)
+        if cfg == "sa_py_cb" and dom:
+            plain = r["out"].get("sa_py")
+            if plain is not None and plain[0] not in ("hang", "skipped") and o[0] != "hang" and plain[:2] != o[:2]:
+                chk.fail_input("callback-changes-outcome:sa_py",
+                               "sa.place(kernel=PythonKernel) with a passive on_temperature_change callback gives %r, "
+                               "without it %r (same arguments, same random.Random seed)" % (o[:2], plain[:2]),
+                               dict(replay, without_callback=plain))
         if reused:
             if prev is not None:
                 chk.count("reuse-pair:%s>%s" % (prev, base))
@@ -510,9 +530,10 @@ def model_exprs(c, r):
     for name in ("hil_c", "rcm_c"):
         if aux.get(name) is not None:
             ex.append(("premise:%s lists every working chip exactly once" % name, "order_c_okb m %s" % cl(aux[name])))
-    corr("rand", "rand_place vr m cs %s" % nl(aux["rand_picks"]))
+    if "rand_picks" in aux:
+        corr("rand", "rand_place vr m cs %s" % nl(aux["rand_picks"]))
     sh = aux.get("sa_shuffles") or []
-    if len(sh) in (0, 2):
+    if "sa_shuffles" in aux and len(sh) in (0, 2):
         lp, vp = (sh + [[], []])[:2]
         corr("sa_initial", "sa_place_trivial vr m cs %s %s" % (nl(lp), nl(vp)))
     st = aux.get("sal_state")
@@ -571,6 +592,7 @@ def run(chk, args):
     else:
         n = 1000 if chk.tier == "quick" else 12000
         cases = [gen_case(chk.rng, i) for i in range(n)]
+        cases += [gen_stress(chk.rng, i) for i in range(3000 if chk.tier == "quick" else 30000)]
         if chk.tier != "quick":
             cases += enumerate_small()
         corpus = os.path.join(lib.VERIF, "corpus", "C02.json")
@@ -664,10 +686,13 @@ def run(chk, args):
         "fractional weights), consistent mixes of Location (repeated), SameChip (chained, duplicated members, "
         "singleton, empty, repeated), global and per-chip Reserve constraints (incl. dead chips), Align / RouteEndpoint "
         "constraints, custom vertex / chip orders (with non-existent chips), SA effort in {0, 0.1, 1}, seeds; modes unit "
-        "(completeness premise) / general / tight; every case goes through 12 placer runs covering the 7 configurations "
+        "(completeness premise) / general / tight; every case goes through 17 placer runs covering the 7 configurations "
         "(sequential default + custom orders, breadth-first, Hilbert with both vertex orders, RCM, random scripted + "
         "real generator, SA C kernel, SA Python kernel, SA initial placement with scripted shuffles, SA Python kernel "
-        "with every _step observed and replayed by the model); thorough tier adds 8136 exhaustively enumerated small "
+        "with every _step observed and replayed by the model, both SA kernels again with a passive "
+        "on_temperature_change callback -- Python kernel must give the same answer as without it --, three placers in "
+        "sequence on the SAME argument objects); plus 3000 (thorough 30000) stress runs of the Python annealing "
+        "kernel on unit-demand rings with net weights 1e-3..1e6 and efforts {0.001, 0.01, 0.05, 1}; thorough tier adds 8136 exhaustively enumerated small "
         "problems (2x1 machine, capacities 0..2, <= 3 vertices with demands 0..2, same-chip pair / location / global "
         "reservation on or off); non-trivial = >= 2 vertices, >= 1 constraint, at least one placer returned a "
         "placement; distinct by hash of the whole input")
